@@ -391,7 +391,16 @@ def scenario(rng, kind):
         if not use_abort:
             for s in sorted(mon_streams):   # a registered monitor must keep consuming or the writer stalls (acquire.h)
                 prog.append("drain %d" % s)
+        held = None
+        if use_abort and kind in ("abort", "monitor") and not trig and rng.random() < 0.2:
+            # the client is holding mapped data when it aborts, and lets go of it only afterwards
+            held = rng.choice(streams)
+            mon_streams.add(held)
+            mon_started = True
+            prog.append("map %d" % held)
         prog.append("abort" if use_abort else "stop")
+        if held is not None:
+            prog.append("unmap %d %s" % (held, rng.choice(["all", "none", "frames 1"])))
         for s in streams:
             acq[s]["abort"] = use_abort
         prog.append("state")
@@ -857,6 +866,7 @@ def oracle(prog, lines, meta):
                     add("C05", "packet-not-chained", "monitor packet is not a chain of whole frames: " + l[:200])
                 m["held"] = parse_frames(l)
                 m["acq"] = cur.get(s)
+                m["late"] = late_reg[s]          # judged when the region was HANDED OUT (it may be released after a stop/abort has returned)
             elif w[3] == "unmap":
                 if w[4] != "ok":
                     add("C06", "unmap-fails", "acquire_unmap_read failed: " + l[:100])
@@ -870,7 +880,7 @@ def oracle(prog, lines, meta):
                 a = m["acq"]
                 if a is not None:
                     for f in m["held"][:k]:
-                        a.mon.append(dict(f, seen_returned=a.returned, late=late_reg[s]))
+                        a.mon.append(dict(f, seen_returned=a.returned, late=m.get("late", late_reg[s])))
                 m["held"] = []
 
     # ---- per acquisition verdicts
@@ -957,6 +967,10 @@ def oracle(prog, lines, meta):
                             else:
                                 add("C06", "monitor-stale" if stale else "monitor-pixels", "stream %d acquisition %d: the monitor was handed frame %d with %s pixel bytes"
                                     % (s, ai, f["id"], "an earlier acquisition's" if stale else "wrong"))
+                                if stale and src_acqs and src_acqs[-1].aborted:
+                                    # "no leftovers from the aborted one"
+                                    add("C07", "monitor-leftover-of-aborted-acquisition", "stream %d acquisition %d: the monitoring client was handed frame %d of the "
+                                        "acquisition that was aborted before it" % (s, ai, f["id"]))
                             prev = None
                             continue
                     fresh_seen = True
